@@ -249,10 +249,15 @@ Message *Message::factory(const F8MetaCntx& ctx, const f8String& from, bool no_c
 #if defined FIX8_CODECTIMING
 	_codec_timings.start(sw_decode_time);
 #endif
-	msg->decode(from, hlen, 7, permissive_mode); // skip already decoded mandatory 8, 9, 35 and 10
+	const unsigned consumed(msg->decode(from, hlen, 7, permissive_mode)); // skip already decoded mandatory 8, 9, 35 and 10
 #if defined FIX8_CODECTIMING
 	_codec_timings.stop(sw_decode_time);
 #endif
+	if (!permissive_mode && consumed != from.size() - 7) // strict: nothing before the checksum may be left undecoded
+	{
+		delete msg;
+		throw InvalidMessage(from, FILE_LINE);
+	}
 
 	msg->_header->get_body_length()->set(mlen);
 	msg->_header->get_msg_type()->set(mtype);
